@@ -52,6 +52,7 @@ def setup(ctx):
     ctx.require("monitor", "titan_connections", 100)
     ctx.require("monitor", "l2_connections", 20)
     ctx.require("monitor", "connections_after_other_clients", 50)
+    ctx.require("monitor", "crowd_returns", 4)
 
 
 class Recorder:
@@ -608,6 +609,62 @@ def run_cert_twins(ctx):
                 close_loop(loop)
 
 
+def run_crowd(ctx):
+    """One chain for the lifetime of a busy server: a client uses up its burst, thousands of other addresses make one
+    request each, the client returns.  The limiter in the chain still refuses it (no token has been earned back at
+    0.001 tokens/s), and a refused request never reaches a handler - however full any table inside a component got."""
+    import time as _time
+
+    from nauyaca.server.middleware import AccessControl, AccessControlConfig, MiddlewareChain, RateLimitConfig, RateLimiter
+    from nauyaca.server.protocol import GeminiServerProtocol
+
+    for cap, crowd in ((2, ctx.pick(4500, 9000)), (1, ctx.pick(4500, 70000))):
+        loop = new_loop()
+        try:
+            log = []
+            rl = RateLimiter(RateLimitConfig(capacity=cap, refill_rate=0.001, retry_after=7))
+            chain = MiddlewareChain([AccessControl(AccessControlConfig(deny_list=["203.0.113.0/24"])), rl])
+            h = SpyHandler({"mode": "sync", "outcome": "value", "status": 20, "meta": "text/gemini", "body": "handled\n"}, log, loop)
+            up = SpyUpload({"outcome": "value", "status": 20, "meta": "text/gemini", "body": "stored\n"}, log, loop)
+            t0 = _time.monotonic()
+
+            def one(peername, req=b"gemini://example.org/doc.gmi\r\n"):
+                n0 = len(h.calls) + len(up.calls)
+                sim = ServerSim(lambda: GeminiServerProtocol(h, chain, up), peername=peername, peercert_der=None, loop=loop, log=[])
+                sim.start()
+                sim.feed(req)
+                sim.finish()
+                stream = bytes(sim.transport.written)
+                return (int(stream[:2]) if stream[:2].isdigit() else None), len(h.calls) + len(up.calls) - n0
+
+            rows = [one(PEER) for _ in range(cap + 1)]
+            for j in range(crowd):
+                st, ran = one((f"10.{1 + (j >> 16)}.{(j >> 8) & 255}.{j & 255}", 40000 + j % 20000))
+                if (st, ran) != (20, 1):
+                    ctx.violation("allowed-not-handled:first-request-of-an-address", f"address number {j} of the crowd made its first request and got {st} (handler entries {ran})", {"capacity": cap, "crowd_index": j, "status": st})
+                    break
+            ctx.count("monitor", "connections", crowd)
+            back = [one(PEER), one(PEER, b"titan://example.org/up.txt;size=3;mime=text/plain\r\nabc")]
+            elapsed = _time.monotonic() - t0
+            wit = {"chain": "access-control(deny 203.0.113.0/24) + rate-limit", "capacity": cap, "refill_rate": 0.001, "client": PEER[0], "first_visit": rows, "other_addresses_in_between": crowd,
+                   "seconds_between_visits": round(elapsed, 1), "tokens_earned_back_at_most": round(elapsed * 0.001, 4), "return_visit": back}
+            ctx.count("monitor", "crowd_returns", len(back))
+            if rows != [(20, 1)] * cap + [(44, 0)]:
+                ctx.violation("burst-misjudged:crowd-scenario", f"a burst of {cap + 1} against capacity {cap} was answered {rows}", wit)
+            elif elapsed * 0.001 >= 0.5:
+                ctx.undecided("crowd-took-so-long-that-a-token-may-be-back")
+            else:
+                ctx.count("monitor", "rejected_connections", len(back))
+                for st, ran in back:
+                    if ran:
+                        ctx.violation("handler-after-deny:component=rate:after-a-crowd-of-other-addresses", f"the limiter owes this client a refusal ({elapsed * 0.001:.4f} tokens earned back) yet a handler ran (status {st})", wit)
+                    elif st != 44:
+                        ctx.violation("wrong-rejection-bytes:component=rate:after-a-crowd-of-other-addresses", f"expected 44, got {st}", wit)
+            ctx.case(("crowd", cap, crowd > 4096, crowd > 65536, tuple(back)), True, sample=wit)
+        finally:
+            close_loop(loop)
+
+
 def chains(ctx, rng):
     out = []
     # all single components, all ordered pairs of a reduced alphabet, sampled triples
@@ -639,6 +696,8 @@ def run(ctx):
             run_wired(ctx, base)
         if ctx.mine(1) or ctx.nshards == 1:
             run_cert_twins(ctx)
+        if ctx.mine(2) or ctx.nshards == 1:
+            run_crowd(ctx)
         k = 0
         all_chains = chains(ctx, rng)
         for ci, chain in enumerate(all_chains):
